@@ -89,6 +89,10 @@ class SigWorld(HistoryWorld):
             signers = list(range(ka))
         else:
             w = [rng.randint(1, 2 ** rng.choice([4, 32, 60])) for _ in range(n)]
+        if signers is None and n and rng.random() < 0.2:
+            # members of weight 0 are legal (uint64) and cannot move the tally: their signatures must still be genuine
+            for j in rng.sample(range(n), min(n, rng.choice([1, 1, 2, n]))):
+                w[j] = 0
         if signers is not None:
             return {'n': n, 'weights': w, 'key_seed': rng.getrandbits(64), 'net': {'drop': 0, 'dup': rng.choice([0, 0.2]), 'jitter': rng.choice([0, 3, 10])},
                     'byz': 0, 'blk_seed': rng.getrandbits(64), 'steps': 400, 'respell': False, 'signers': signers}
@@ -132,6 +136,13 @@ class SigWorld(HistoryWorld):
         net = Net(sim, cfg['net'], lambda dst, payload, meta: arrivals.append(meta['op']))
         n = cfg['n']
         byz = set(rng.sample(range(n), min(cfg['byz'], n))) if n else set()
+        zeros = [i for i in range(n) if cfg['weights'][i] == 0]
+        if zeros:
+            ctx.probe('zero-weight-member')
+            if cfg['byz'] and rng.random() < 0.7:
+                # the deviating validators are the ones whose weight does not count
+                byz = set(rng.sample(zeros, min(cfg['byz'], len(zeros))))
+                ctx.probe('byzantine-zero-weight-member')
         signers = [i for i in range(n) if rng.random() < 0.85]
         if cfg.get('signers') is not None:
             signers = [i for i in cfg['signers'] if i < n]
@@ -264,6 +275,12 @@ class SigWorld(HistoryWorld):
         ok, res = self._call(st, sigs)
         ctx.evaluated(1)
         ctx.probe('healed-round')
+        if sum(st.weights) == 0:
+            # every member has weight 0: nothing exceeds two thirds of nothing
+            ctx.probe('total-weight-zero')
+            if ok:
+                self.V(ctx, 'accepted-invalid-set', 'check_block_signatures', 'total-weight-zero', 'a validator set of total weight 0 was accepted')
+            return
         if not ok:
             self.V(ctx, 'liveness-after-heal', 'check_block_signatures', 'all-honest', 'after faults stopped, the complete set of valid signatures by all %d validators was rejected: %r' % (len(sigs), res))
 
